@@ -1,4 +1,6 @@
 import GoSpec.Val
+import Proofs.Pow2
+import Proofs.C01Tables
 /-! # C01 — typed expressions over basic types evaluate exactly as compiled Go (property theorems) -/
 namespace C01
 open GoSpec GoSpec.Outcome
